@@ -87,6 +87,8 @@ From OV Require Proofs.SrcEqMesh.
                                      nvars variables of the node at slot i*ny+j; line j*(nx+1)+nx is empty; token
                                      (j*nx+i)*(nvars+2)+c of the whitespace-token stream is token c of that line
      output_var2_is_projection       the file of output_var = the file of output with the other variables' columns removed
+   Proofs/MeshIO3Sample.v: recorded output of the Rust standard library's `{:.*}` / `{:.*e}` on 240 binary64 values (6 exact
+   ties, 7 negative values rounding to zero): the digits are fmt_fix / fmt_sci of the exact rational value of the float.
    NOT modelled: the sign of a negative value that rounds to zero (Rust prints "-0.00" and reads -0.0; rationals have no
    signed zero, the model's token is unsigned), NaN / infinities; the binary64 rounding of f64::from_str is a parameter
    (fl) of the last five formatter theorems and absent from the others (exact rational arithmetic).
@@ -100,6 +102,7 @@ From OV Require Import Proofs.MeshIO3Inst.
 From OV Require Import Proofs.MeshIO3Out2.
 From OV Require Import Proofs.MeshIO3Any.
 From OV Require Import Proofs.MeshIO3Fl.
+From OV Require Proofs.MeshIO3Sample.
 
 Theorem read_layout_roundtrip_rounded : forall (A : Arith) (tok : Type) (fmt : A -> tok) (parse : tok -> res A) (rnd : A -> A),
   (forall x, parse (fmt x) = Ok (rnd x)) ->
